@@ -332,6 +332,7 @@ func runC03(c *Ctx) {
 		}
 	}
 	r.Floor("unary-operand", nu, 1, "UnaryExpression construction sites")
+	c03Sticky(c, p)
 }
 
 // collectTokenTests gathers token type names tested positively in cond (isType(X), isAnyType(...), currentToken.Type == X).
